@@ -794,10 +794,22 @@ def check_C08(chk):
                 n = rng.randint(1, 20)
                 sizes = [rng.choice([10, 10, 10, 300, 5000, 9000]) for _ in range(n)]
                 cases.append({"id": next(nid), "order": order, "client": client, "sizes": sizes})
+            if order != "connect_first" and client != "spawn":
+                # a client that queues more than a socket buffer holds before the server reads: it has to wait, not to fail
+                n = rng.randint(8, 14)
+                cases.append({"id": next(nid), "order": order, "client": client, "sizes": [rng.choice([200, 50000, 96000, 96000]) for _ in range(n)], "big": True})
     lines = ["id=%d order=%s client=%s sizes=%s" % (c["id"], c["order"], c["client"], ",".join(str(x) for x in c["sizes"])) for c in cases]
     lines.append("id=%d op=many n=%d" % (next(nid), 200))
     recs, trace, rc, err = C.run_harness(bins["default"], "server", lines, env_extra={"TMPDIR": tmp, "VSHIM_SNDBUF": 4096}, timeout=900)
     by = {r["id"]: r for r in recs if r.get("kind") == "server"}
+    # the big-backlog cases once more with the system's own buffer sizes (single packets of up to 96000 bytes fill the client's socket)
+    blines = [l for l, c in zip(lines, cases) if c.get("big")]
+    bcases = [dict(c, id=c["id"] + 5000, real_buffers=True) for c in cases if c.get("big")]
+    blines = ["id=%d order=%s client=%s sizes=%s" % (c["id"], c["order"], c["client"], ",".join(str(x) for x in c["sizes"])) for c in bcases]
+    brecs, _, brc, berr = C.run_harness(bins["default"], "server", blines, env_extra={"TMPDIR": tmp}, timeout=900)
+    by.update({r["id"]: r for r in brecs if r.get("kind") == "server"})
+    err = err + berr
+    cases = cases + bcases
     many = next((r for r in recs if r.get("kind") == "many"), None)
     fails, todo = [], []
     for k, c in enumerate(cases):
